@@ -424,7 +424,7 @@ def gen_histories(ctx, n, rng_name='hist'):
     return out
 
 
-def pmap(func, chunks, jobs=14, timeout=900):
+def pmap(func, chunks, jobs=14, timeout=900, module='props.c08'):
     """runs props.c08.<func> over every chunk (a list of items) in its own new interpreter, at most
     `jobs` at a time; returns the list of result lists, in order"""
     import tempfile
@@ -443,7 +443,7 @@ def pmap(func, chunks, jobs=14, timeout=900):
                 with open(inp, 'w') as f:
                     json.dump(chunk, f)
                 p = subprocess.Popen([sys.executable, os.path.join(common.VERIF, 'harness', 'worker.py'),
-                                      'props.c08', func, inp, outp], env=env, cwd=common.VERIF,
+                                      module, func, inp, outp], env=env, cwd=common.VERIF,
                                      stdout=subprocess.DEVNULL, stderr=subprocess.PIPE, text=True)
                 running.append((i, p, outp, time.time()))
             still = []
